@@ -440,3 +440,69 @@ Proof.
   - rewrite Fv. subst c1. cbn. lia.
   - rewrite Fm. subst c1. reflexivity.
 Qed.
+
+(* ---------------------------------------------------------------- C06 for context reports *)
+Lemma upd_cstates_monotone items : forall c h s',
+  cm_cstates (fst (upd_cstates c items)) h = Some s' ->
+  (cm_cstates c h = Some s' \/ In (h, s') items) /\
+  (forall s, cm_cstates c h = Some s -> c_ver s <= c_ver s').
+Proof.
+  induction items as [|[k s0] r IH]; intros c h s'; cbn [upd_cstates].
+  - cbn. intros E. split; [now left|]. intros s Es. rewrite E in Es. injection Es as <-. lia.
+  - set (acc := match cm_cstates c k with Some o => c_ver o <? c_ver s0 | None => true end).
+    destruct (upd_cstates (if acc then put_cc c k (Some s0) else c) r) as [c2 ns] eqn:E. cbn [fst].
+    intros E2. specialize (IH (if acc then put_cc c k (Some s0) else c) h s'). rewrite E in IH. cbn [fst] in IH.
+    destruct (IH E2) as [Hor Hmono]. destruct acc eqn:Ea.
+    + rewrite put_cc_cstates in Hor, Hmono. destruct (Z.eqb_spec k h) as [->|Hne].
+      * split.
+        -- destruct Hor as [[= <-]|Hi]; [right; now left|right; now right].
+        -- intros s Es. specialize (Hmono s0 eq_refl). subst acc. rewrite Es in Ea.
+           apply Z.ltb_lt in Ea. lia.
+      * split; [destruct Hor as [Ho|Hi]; [now left|right; now right]|exact Hmono].
+    + split; [destruct Hor as [Ho|Hi]; [now left|right; now right]|exact Hmono].
+Qed.
+
+Lemma upd_cstates_keeps items : forall c h s, cm_cstates c h = Some s ->
+  exists s', cm_cstates (fst (upd_cstates c items)) h = Some s'.
+Proof.
+  induction items as [|[k s0] r IH]; intros c h s E; cbn [upd_cstates]; [now exists s|].
+  set (acc := match cm_cstates c k with Some o => c_ver o <? c_ver s0 | None => true end).
+  destruct (upd_cstates (if acc then put_cc c k (Some s0) else c) r) as [c2 ns] eqn:E2. cbn [fst].
+  specialize (IH (if acc then put_cc c k (Some s0) else c) h). rewrite E2 in IH. cbn [fst] in IH.
+  destruct acc; [|now apply (IH s)].
+  rewrite put_cc_cstates in IH. destruct (Z.eqb k h); [now apply (IH s0)|now apply (IH s)].
+Qed.
+
+Lemma upd_cstates_stale items : forall c,
+  (forall h s, In (h, s) items -> exists o, cm_cstates c h = Some o /\ c_ver s <= c_ver o) ->
+  upd_cstates c items = (c, []).
+Proof.
+  induction items as [|[k s0] r IH]; intros c Hs; cbn [upd_cstates]; [reflexivity|].
+  destruct (Hs k s0 (or_introl eq_refl)) as (o & -> & Hle).
+  replace (c_ver o <? c_ver s0) with false by lia.
+  rewrite IH; [reflexivity|]. intros h s Hi. apply Hs. now right.
+Qed.
+
+Theorem ctx_report_no_regression c vg items h :
+  let c' := fst (process c (RCtx vg items)) in
+  (forall s', cm_cstates c' h = Some s' ->
+      (cm_cstates c h = Some s' \/ In (h, s') items) /\
+      (forall s, cm_cstates c h = Some s -> c_ver s <= c_ver s')) /\
+  (forall s, cm_cstates c h = Some s -> exists s', cm_cstates c' h = Some s').
+Proof.
+  cbv zeta. unfold process. cbn [report_vg]. destruct (vg_ver vg <? cm_ver c).
+  - cbn. split; [|intros s E; now exists s]. intros s' E. split; [now left|].
+    intros s Es. rewrite E in Es. injection Es as <-. lia.
+  - split.
+    + intros s' E. apply (upd_cstates_monotone items (set_vg c vg) h s' E).
+    + intros s E. apply (upd_cstates_keeps items (set_vg c vg) h s E).
+Qed.
+
+Theorem duplicate_ctx_report_noop c vg items :
+  cm_ver c <= vg_ver vg ->
+  (forall h s, In (h, s) items -> exists o, cm_cstates c h = Some o /\ c_ver s <= c_ver o) ->
+  process c (RCtx vg items) = (set_vg c vg, []).
+Proof.
+  intros Hv Hs. unfold process. cbn [report_vg]. replace (vg_ver vg <? cm_ver c) with false by lia.
+  apply upd_cstates_stale. exact Hs.
+Qed.
